@@ -102,7 +102,7 @@ def _hist_cases(rng, tier):
         # refused requests that share their first steps with nodes handed out earlier, then every held node re-inspected
         a, b = rng.choice([0, 1]), rng.choice([7, 5, 3, 2, 1, 0])
         ops += ["bp:" + sx("M/%d/%d'" % (a, b)), "bp:" + sx("M/%d/%d/0h" % (a, b)), "dp:0:%s" % impl.lst(str, [a, b, H]),
-                "ckd:1:%d" % (H + 3)]
+                "ckd:1:%d" % (H + 3), "gc:0:%d:%d" % (H - 2, H + 2), "gc:1:%d:%d" % (H - 1, H + 1), "gc:1:%d:%d" % (H, H + 1)]
         ops += ["xk:%d" % h for h in range(0, 8)] + ["ad:%d:p2wpkh" % h for h in range(1, 5)]
         yield "hist %s %s" % (wo, ";".join(ops)), "shared-watch-only-object"
 
@@ -123,7 +123,27 @@ def oracle(line, out):
     op = tok[0]
     if op == "hist":
         from .c13 import oracle as o13
-        return o13(line, out)
+        m = o13(line, out)
+        if m:
+            return m
+        # on a watch-only wallet every request that involves a hardened child number must be REFUSED, whatever the
+        # entry point (single step, path, bulk interval, textual path)
+        if v is not None and tok[1].startswith("xkey:"):
+            outs = v.split(" ; ")
+            for o, res in zip(tok[2].split(";"), outs):
+                t = o.split(":")
+                hard = False
+                if t[0] == "ckd":
+                    hard = int(t[2]) >= H
+                elif t[0] == "dp":
+                    hard = any(i >= H for i in impl.unlist(int, t[2]))
+                elif t[0] == "gc":
+                    hard = int(t[2]) < int(t[3]) and int(t[3]) - 1 >= H
+                elif t[0] == "bp":
+                    hard = any(c.endswith(("'", "h")) for c in unstr(t[1]).split("/")[1:6])
+                if hard and res != "err":
+                    return "watch-only wallet answered a request with a hardened child number (%s): %s" % (o, res[:60])
+        return None
     if op == "wallet":
         if v is None:
             return "wallet could not be built from an extended public key"
